@@ -436,7 +436,43 @@ def _apply_unit(repo: str, header: str, body_lines: List[str], tpl_name: str) ->
     out = sig + "\n" + spec + ("\n" if spec else "") + body + "\n"
     if lifted:
         out += "\n" + "\n".join(lifted) + "\n"
+    out += _requires_canary(uid, sig, spec)
     return out, info
+
+
+_SPEC_KW = ("requires", "ensures", "decreases", "returns", "recommends", "opens_invariants", "no_unwind")
+
+
+def _requires_canary(uid: str, sig: str, spec: str) -> str:
+    """Vacuity guard: a unit with a `requires` clause gets a twin `canary_req_<uid>` with the same signature
+    and the same precondition whose body asserts false.  It must FAIL; if it verifies the precondition is
+    unsatisfiable and every obligation of the unit was discharged vacuously."""
+    if uid.startswith("canary") or not spec.strip():
+        return ""
+    toks = rt.tokenize(spec)
+    depth, marks = 0, []
+    prev = None
+    for t in toks:
+        if t.text in "([{":
+            depth += 1
+        elif t.text in ")]}":
+            depth -= 1
+        elif depth == 0 and t.kind == "id" and t.text in _SPEC_KW and not (prev is not None and prev.text == "."):
+            marks.append(t)
+        prev = t
+    req = None
+    for i, t in enumerate(marks):
+        if t.text == "requires":
+            end = marks[i + 1].start if i + 1 < len(marks) else len(spec)
+            req = spec[t.start:end].rstrip().rstrip(",")
+            break
+    if not req:
+        return ""
+    m = re.search(r"\bfn\s+([A-Za-z_][A-Za-z0-9_]*)", sig)
+    if not m:
+        return ""
+    csig = sig[:m.start(1)] + "canary_req_" + re.sub(r"[^A-Za-z0-9_]", "_", uid) + sig[m.end(1):]
+    return "\n" + csig + "\n    " + req + ",\n{ assert(false); vstd::pervasive::unreached() }\n"
 
 
 def _extract_item(repo: str, header: str, tpl_name: str) -> Tuple[str, UnitInfo]:
